@@ -15,6 +15,18 @@ def main():
         rp = json.load(open(a.replay))
         seed = int(rp.get("seed", seed))
         a.tier = rp.get("tier", a.tier)
+    # watchdog: a change that makes the implementation (or the model evaluation) run forever must end in a report, not in a hang.
+    # Quick checks take at most ~70 s here, thorough ones at most ~25 min; the limits leave a factor > 30.
+    import signal, faulthandler
+    limit = int(os.environ.get("VERIF_TIMEOUT", "3600" if a.tier == "quick" else "40000"))
+    def on_alarm(signum, frame):
+        os.makedirs(os.path.join(common.OUT, a.pid), exist_ok=True)
+        p = os.path.join(common.OUT, a.pid, "replay_timeout.json")
+        json.dump(dict(property=a.pid, what="check did not finish", seconds=limit, stack="".join(traceback.format_stack(frame)[-12:]),
+                       no_failing_input_found=True), open(p, "w"), indent=1)
+        print("VIOLATION property=%s replay=%s check did not finish within %d s while driving the implementation (see the stack in the replay file) no-failing-input-found" % (a.pid, p, limit), flush=True)
+        os._exit(1)
+    signal.signal(signal.SIGALRM, on_alarm); signal.alarm(limit)
     try:
         code = mod.run(a.tier, seed)
     except Exception:
